@@ -31,6 +31,12 @@ def _ex() -> core.Exec:
     return ex
 
 
+def _now() -> float:
+    """Virtual clock; a fixed instant when no execution is active (pure codec checks)."""
+    ex = core.CUR
+    return ex.now if ex is not None else 1_700_000_000.0
+
+
 class _V:
     """Base: epoch-based lazy re-initialisation."""
 
@@ -815,11 +821,11 @@ class _VTime(types.ModuleType):
 
     @staticmethod
     def time():
-        return _ex().now
+        return _now()
 
     @staticmethod
     def monotonic():
-        return _ex().now
+        return _now()
 
     perf_counter = monotonic
 
@@ -864,15 +870,15 @@ class VDateTime(_dt.datetime, metaclass=_DTMeta):
 
     @classmethod
     def now(cls, tz=None):
-        return _dt.datetime.fromtimestamp(_ex().now, tz=tz)
+        return _dt.datetime.fromtimestamp(_now(), tz=tz)
 
     @classmethod
     def utcnow(cls):
-        return _dt.datetime.fromtimestamp(_ex().now, tz=_dt.timezone.utc).replace(tzinfo=None)
+        return _dt.datetime.fromtimestamp(_now(), tz=_dt.timezone.utc).replace(tzinfo=None)
 
     @classmethod
     def today(cls):
-        return _dt.datetime.fromtimestamp(_ex().now)
+        return _dt.datetime.fromtimestamp(_now())
 
     @classmethod
     def fromtimestamp(cls, *a, **k):
@@ -910,7 +916,7 @@ class VDate(_dt.date, metaclass=_VDateMeta):
 
     @classmethod
     def today(cls):
-        return _dt.datetime.fromtimestamp(_ex().now).date()
+        return _dt.datetime.fromtimestamp(_now()).date()
 
     @classmethod
     def fromisoformat(cls, s):
